@@ -21,6 +21,14 @@ class D(B, C):
     pass
 
 
+class B2(B):
+    pass
+
+
+class B3(B):
+    pass
+
+
 class E:
     pass
 
@@ -28,6 +36,10 @@ class E:
 class Outer:
     class Inner:
         pass
+
+
+class MyStr(str):
+    """A str subclass: dict keys of this class pass MonkeyType's 'all keys are strings' test."""
 
 
 class MyList(list):
